@@ -75,6 +75,8 @@ pub const FAIL_KINDS: &[&str] = &[
     "byte-range",
     "undef-def",
     "macro-case-only",
+    "undef-deep",
+    "error-in-macro",
 ];
 
 /// Devices used by generated programs: (name, forbids mul, forbids jmp, avr8l, flash words, ram, eeprom)
@@ -717,6 +719,20 @@ pub fn gen(r: &mut Rng, pool: &Pool, opts: &GenOpts) -> Program {
                 Node::Macro(vec![format!(".macro W{}t", pool.tag), "    ldi r16, 1".to_string(), ".endm".to_string()]),
                 Node::Macro(vec![format!(".macro w{}T", pool.tag), "    ldi r17, 2".to_string(), "    nop".to_string(), ".endm".to_string()]),
                 Node::Lines(vec![format!("    w{}t", pool.tag)]),
+            ],
+            // an identifier that is missing at the bottom of a chain of .equ: evaluation fails
+            // several levels deep and unwinds with `?`
+            "undef-deep" => {
+                let n = 5 + g.r.below(4);
+                let mut l: Vec<String> = (0..n).map(|i| format!(".equ q{}_{} = q{}_{} + 1", pool.tag, i, pool.tag, i + 1)).collect();
+                l.push(format!(".equ q{}_{} = q{}_bottomless * 2", pool.tag, n, pool.tag));
+                l.push(format!("    ldi r16, low(q{}_0)", pool.tag));
+                vec![Node::Lines(l)]
+            }
+            // the failure happens while a macro body is expanded (pass 0)
+            "error-in-macro" => vec![
+                Node::Macro(vec![format!(".macro e{}rr", pool.tag), "    nop".to_string(), format!(".error \"{}in macro\"", opts.msg_tag), ".endm".to_string()]),
+                Node::Lines(vec![format!("    e{}rr", pool.tag)]),
             ],
             _ => vec![],
         };
